@@ -429,11 +429,17 @@ def run(ctx):
     ct = None
     if only != "b":
         ct = threading.Thread(target=c_rounds); ct.start()         # library part of tier C, while TLC enumerates tier B
-    if only != "c": tier_b(ctx, F, builds)
-    if ct is not None:
-        ct.join()
-        if "err" in cres: raise cres["err"]
-        ecdsa_modec.finish(ctx, F, cres["st"])
+    try:
+        if only != "c": tier_b(ctx, F, builds)
+        if ct is not None:
+            ct.join()
+            if "err" in cres: raise cres["err"]
+            ecdsa_modec.finish(ctx, F, cres["st"])
+    except R.HangStop:
+        # library calls that never return (each one recorded in F with the key <function>:fault-sig14) used up the tier's watchdog budget
+        if ct is not None: ct.join()
+        ctx.log("stopped driving: %d library calls did not return within %d s of CPU time" % (R._hangs[0], R.WD_CPU))
+        ctx.add(stopped_after_watchdog_deaths=R._hangs[0])
     F.flush()
     ctx.add(samples=sorted(set(SAMPLES), key=lambda l: (l.split()[0], len(l)))[:12])
     ctx.cov["builds"] = [b.name for b in builds]
